@@ -17,7 +17,6 @@ import struct
 from vf import build, coq, forest as F, mch, mcgen
 from vf.core import VERIF, sh
 
-KEY_DEPTH = "depth-ge-1024"
 
 
 # ---------------------------------------------------------------- generators
@@ -189,28 +188,57 @@ def inproc(ctx):
     ctx.extra["filtered_subhistory_checks"] = sum(1 for c in cases if c["kind"] == "filtered")
 
 
-def known_depth_overflow(ctx):
-    """KNOWN FINDING witness: --max-stack=2000, recursion 1100 deep"""
+def depth_field_regression(ctx):
+    """--max-stack above the 10-bit depth field (repaired defect depth-ge-1024): recursion 1023/1024/1100 deep with
+    --max-stack=2000: the calls at depth >= 1024 must be dropped whole, every other record written unchanged"""
     h = mch.Harness(ctx)
-    fo = chain(1100)
-    cfg = {"shape": "pg", "trig": {}, "max_stack": 2000, "depth": 2000}
+    items, defs = [], ""
+    for n, (depth, shape) in enumerate([(1100, "pg"), (1100, "cyg"), (1025, "pg"), (1023, "pg")]):
+        fo = chain(depth)
+        cfg = {"shape": shape, "trig": {}, "max_stack": 2000, "depth": 2000}
+        res = mcgen.run_case(h, cfg, F.flatten(fo))
+        bad = [r for r in res["recs"] if r[4] != 0 or r[3] >= 1024]      # f0 has address 0 in the model's address space
+        defs += "Definition c%d := %s.\nDefinition chk%d := %s.\n" % (n, mcgen.case_term(cfg, F.flatten(fo), res),
+                                                                     n, coq_plain_check(cfg, fo, res["recs"]))
+        items += [("agree%d" % n, "agree4 c%d" % n), ("ok%d" % n, "chk%d" % n)]
+        ctx.case(key="depth-field-%d-%s" % (depth, shape), tags=["max_stack=2000,depth=%d" % depth], size=2 * depth)
+        if bad:
+            ctx.violation("records at depth >= 1024 are corrupted (depth wraps, address off by one): %d of %d records of a "
+                          "%d-deep recursion with --max-stack=2000" % (len(bad), len(res["recs"]), depth),
+                          {"cfg": cfg, "chain_depth": depth, "bad_records": bad[:8]}, True)
+    r = coq.run_cases(ctx, "c02_depthfield", mcgen.PRE, defs, items, timeout=900)
+    if r is None:
+        return
+    for k, _ in items:
+        if r[k] != "true":
+            ctx.violation("--max-stack=2000, deep recursion: %s" % ("model and libmcount disagree" if k.startswith("agree")
+                          else "the stream is not the history pruned at depth 1024"),
+                          {"item": k, "note": "cases: 1100 pg, 1100 cyg, 1025 pg, 1023 pg (in this order)"}, False)
+
+
+KEY_ZERO = "zero-duration-dropped"
+
+
+def known_zero_duration(ctx):
+    """KNOWN FINDING witness: a call whose entry and exit hooks read the same clock value (coarse clock source) and
+    that has no recorded callee is not recorded at all, even without any -t option: mcount_exit_filter_record writes a
+    frame only if end_time - start_time > threshold (strict) or its ENTRY is already written"""
+    h = mch.Harness(ctx)
+    fo = [F.Call(0, 10, 20, [F.Call(1, 12, 12), F.Call(2, 13, 14)])]
+    cfg = {"shape": "pg", "trig": {}}
     res = mcgen.run_case(h, cfg, F.flatten(fo))
-    bad = [r for r in res["recs"] if r[4] != 0]      # f0 has address 0 in the model's address space
-    nrec = len(res["recs"])
-    # model must agree (faithful, wrap included); the ideal history must not
-    defs = "Definition c := %s.\nDefinition chk := %s.\n" % (mcgen.case_term(cfg, F.flatten(fo), res),
-                                                         coq_plain_check(cfg, fo, res["recs"]))
-    r = coq.run_cases(ctx, "c02_known", mcgen.PRE, defs, [("agree", "agree4 c"), ("ok", "chk")], timeout=600)
-    ctx.case(key="known-depth-overflow", tags=["known:depth>=1024"], size=2200)
+    defs = "Definition c := %s.\nDefinition full := list_eqb seen_eqb %s (map ideal (flat_map (history 0) %s)).\n" % (
+        mcgen.case_term(cfg, F.flatten(fo), res), mcgen.coq_recs(res["recs"]), F.coq_forest(fo))
+    r = coq.run_cases(ctx, "c02_zero", mcgen.PRE, defs, [("agree", "agree4 c"), ("full", "full")], timeout=600)
+    ctx.case(key="known-zero-duration", tags=["known:zero-duration"], size=6)
     if r is None:
         return
     if r["agree"] != "true":
-        ctx.violation("model and libmcount disagree on the depth>=1024 witness",
-                      {"cfg": cfg, "note": "recursion chain of 1100 calls"}, False)
-    still = (r["ok"] != "true")
-    ctx.known_finding(KEY_DEPTH, "records at depth >= 1024 are corrupted (depth wraps, address off by one): "
-                      "%d of %d records of a 1100-deep recursion with --max-stack=2000" % (len(bad), nrec),
-                      still_fails=still, replay={"cfg": cfg, "chain_depth": 1100})
+        ctx.violation("model and libmcount disagree on the zero-duration witness",
+                      {"cfg": cfg, "forest": [c.to_json() for c in fo]}, False)
+    ctx.known_finding(KEY_ZERO, "a call whose two clock readings are equal is not recorded (witness: main{f1 [12,12]; f2 "
+                      "[13,14]}: %d records instead of 6)" % len(res["recs"]),
+                      still_fails=(r["full"] != "true"), replay={"cfg": cfg, "forest": [c.to_json() for c in fo]})
 
 
 def threads_and_fork(ctx):
@@ -638,7 +666,8 @@ def run(ctx):
     coq.prove(ctx, "C02", extra_files=["Mcount/Check", "Mcount/Table"])
     objdir = build.get_build("plain", ctx.log)
     inproc(ctx)
-    known_depth_overflow(ctx)
+    depth_field_regression(ctx)
+    known_zero_duration(ctx)
     threads_and_fork(ctx)
     e2e(ctx, objdir)
 
